@@ -742,3 +742,11 @@ MODEL_DOC.update({
     'lazy_static Lazy::get(f)': 'f()',
     'Box::new_uninit + box_assume_init_into_vec_unsafe': 'the lowering of vec![..]: the written array becomes the Vec',
 })
+
+
+def model_name(ex, pattern):
+    for pat, fn in ex.models:
+        if pat.pattern == pattern:
+            d = (fn.__doc__ or '').strip().split('\n')[0]
+            return fn.__name__[2:] + (' -- ' + d if d else '')
+    return pattern
